@@ -115,7 +115,7 @@ static std::string gen(const std::string &prop, uint64_t base, uint64_t idx, boo
 #else
     bool guard = idx % 5 == 3;
 #endif
-    line(strf("cfg tasks=%d sched=%s sseed=0x%llx layout=%s env=%d hw=%d thr=%d", ntasks, sched.c_str(), (unsigned long long)r.next(), guard ? "guard" : "packed", (int)((idx / 3) % 2), (int)(!guard && idx % 4 == 2), (int)(idx % 3 == 1)));
+    line(strf("cfg tasks=%d sched=%s sseed=0x%llx layout=%s env=%d hw=%d thr=%d oom=%d loc=%d", ntasks, sched.c_str(), (unsigned long long)r.next(), guard ? "guard" : "packed", (int)((idx / 3) % 2), (int)(!guard && idx % 4 == 2), (int)(idx % 3 == 1), (int)(idx % 4 == 1), (int)(idx % 5 == 1)));
     int next_obj = 0;
     std::vector<std::string> objlines, calllines;  // (set-up calls come first in calllines)
     auto new_obj = [&](int task, size_t size, bool shared = false) {
@@ -375,6 +375,10 @@ struct World {
     // also a store that writes back the value that was there (a read-modify-write of a neighbour loses the neighbour's concurrent update)
     bool hw = false;
     bool on_worker_thread = false;
+    bool oom = false;             // allocations made by library code fail half of the time
+    uint64_t oom_seed = 0;
+    uint32_t alloc_count[8] = {0};
+    uint64_t pr_oom = 0;
     int hw_fd[4] = {-1, -1, -1, -1};  // [0],[1]: behind / before the principal object; [2],[3]: the same for the object the call writes its result to
     bool hw_failed = false;
     struct HwWatch { uintptr_t addr[4] = {0, 0, 0, 0}; unsigned len[4] = {0, 0, 0, 0}; int obj = -1, obj_dst = -1; };
@@ -767,8 +771,19 @@ static void heap_forget(void *p) {
     for (size_t i = 0; i < W->heap.size(); i++)
         if (W->heap[i].p == (uintptr_t)p) { W->heap.erase(W->heap.begin() + i); return; }
 }
-void *__wrap_malloc(size_t n) { void *p = __real_malloc(n); heap_note(p, n, (uintptr_t)__builtin_return_address(0)); return p; }
-void *__wrap_calloc(size_t a, size_t b) { void *p = __real_calloc(a, b); heap_note(p, a * b, (uintptr_t)__builtin_return_address(0)); return p; }
+// allocation failure is the one fault a library's own temporaries are exposed to: in the runs that say so half of the allocations
+// made by library code fail (the unchanged library allocates nothing)
+static bool lib_alloc_fails(uintptr_t pc) {
+    if (!W || !W->oom || !lib_active() || !sim::g_symtab.is_repo(pc)) return false;
+    // (decided by the caller and its own count of allocations, so that the sequential and the interleaved execution agree)
+    int t = W->tasks.cur()->id & 7;
+    if (!(sim::mix64(W->oom_seed, ((uint64_t)t << 32) | W->alloc_count[t]++) & 1)) return false;
+    W->pr_oom++;
+    errno = ENOMEM;
+    return true;
+}
+void *__wrap_malloc(size_t n) { if (lib_alloc_fails((uintptr_t)__builtin_return_address(0))) return nullptr; void *p = __real_malloc(n); heap_note(p, n, (uintptr_t)__builtin_return_address(0)); return p; }
+void *__wrap_calloc(size_t a, size_t b) { if (lib_alloc_fails((uintptr_t)__builtin_return_address(0))) return nullptr; void *p = __real_calloc(a, b); heap_note(p, a * b, (uintptr_t)__builtin_return_address(0)); return p; }
 void *__wrap_realloc(void *o, size_t n) { heap_forget(o); void *p = __real_realloc(o, n); heap_note(p, n, (uintptr_t)__builtin_return_address(0)); return p; }
 void __wrap_free(void *p) { heap_forget(p); __real_free(p); }
 
@@ -1175,6 +1190,7 @@ static Snapshot run_phase(bool interleave) {
     sim::g_tasks = &w.tasks;
     sim::Tasks::refill_stacks();
     w.last_load.assign(w.prog.size(), 0);
+    memset(w.alloc_count, 0, sizeof w.alloc_count);
     w.in_shared_call.assign(w.prog.size(), false);
     w.in_call.assign(w.prog.size(), 0);
     w.result_fn.assign(w.prog.size(), {});
@@ -1258,6 +1274,10 @@ static void exec(const std::string &text, bool verbose) {
             w.env_on = kv.u64("env", 0);
             w.hw = kv.u64("hw", 0);
             w.on_worker_thread = kv.u64("thr", 0);
+            w.oom = kv.u64("oom", 0);
+            w.oom_seed = sseed ^ 0x00a110cULL;
+            // a process-wide setting an application may well have made: a UTF-8 locale (MB_CUR_MAX > 1 switches multibyte code paths on)
+            setlocale(LC_ALL, kv.u64("loc", 0) ? "C.UTF-8" : "C");
             if (w.guard_layout) cursor = kPage;
             w.prog.assign(ntasks, {});
         } else if (kv.op == "obj") {
@@ -1360,6 +1380,8 @@ static void exec(const std::string &text, bool verbose) {
     if (w.pr_libc_state) g_res.counters["libc_calls_with_state_object_by_library_code"] = w.pr_libc_state;
     if (w.pr_libc_dest) g_res.counters["libc_calls_writing_through_a_pointer_by_library_code"] = w.pr_libc_dest;
     if (w.hw) { g_res.counters[w.hw_failed ? "hw_watchpoints.unavailable" : "hw_watchpoints.runs"] = 1; g_res.counters["hw_watchpoints.calls_watched"] = w.pr_hw_armed; }
+    if (w.oom) g_res.counters["cfg.library_allocations_may_fail"] = 1;
+    if (w.pr_oom) g_res.counters["fault.library_allocation_failed"] = w.pr_oom;
     if (w.on_worker_thread) g_res.counters[syscall(SYS_gettid) != getpid() ? "cfg.run_on_a_second_os_thread" : "cfg.second_os_thread_unavailable"] = 1;
     g_res.counters["scen." + saved_policy] = 1;
     g_res.counters[w.guard_layout ? "layout.guard_pages" : "layout.packed"] = 1;
